@@ -21,12 +21,33 @@ THEOREMS = [
     "C16.from_rules_complete",
     "C16.engine_rebuild_complete",
     "C16.o4_laws",
+    # part 2 (Theorems2.lean): the key text the code hashes / compares is modelled; its injectivity is proved
+    "C16.debugKey_prefix_free",
+    "C16.debugKey_eq_iff_sameText",
+    "C16.debugKey_injective",
+    "C16.debugKey_injective_nofloat",
+    "C16.alphaKey_law",
+    "C16.alpha_filter_index_eq_linear_dbg",
+    "C16.alpha_stats_exact",
+    "C16.beta_lookup_value_exact",
+    "C16.beta_joinSame_eq",
+    "C16.compact_eq_counting",
+    "C16.compact_refs_exact",
+    "C16.factKey_injective",
+    "C16.sharing_eq_live",
+    "C16.sharing_get_exact",
+    "C16.nodeKey_injective",
+    "C16.memo_eq_direct_dbg",
+    "C16.memo_dbg_needs_wf",
+    "C16.r4_laws",
 ]
+LEAN_TARGETS = ["RreModel.C16.Theorems", "RreModel.C16.Theorems2"]
 N = {"quick": 3000, "thorough": 40000}
 EXHAUSTIVE = {"quick": False, "thorough": False}
 RULE = ("cases = corpus (witnesses of F-C16a/F-C16b and corner cases) + a systematic part: every ordered pair (stored value, queried "
-        "value) of a 43-value pool {ints, floats incl. 0.0/-0.0/two NaN payloads/inf, numeric-looking and escape-needing strings, "
-        "bools, null, flat and nested arrays} under the index layouts create-before-insert / create-after-insert (+filter_tracked) "
+        "value) of a 55-value pool {ints, floats incl. 0.0/-0.0/two NaN payloads/inf, numeric-looking and escape-needing strings "
+        "(quotes, backslashes, `, `, `\"), String(\"`, control characters, non-ASCII printable and escaped code points U+0301/U+200B/U+FEFF/U+E000, "
+        "an astral character), bools, null, flat arrays and arrays nested up to 3 deep} under the index layouts create-before-insert / create-after-insert (+filter_tracked) "
         "and, for a third of the pairs (thorough: all), drop-and-recreate, a beta add/add/lookup/remove/lookup history and a memo "
         "evaluate/evaluate/evaluate stream + N random histories of 2..10 operations split 30% alpha (insert/create_index/drop_index/"
         "filter/filter_tracked x1 and x51/auto_tune/clear), 20% beta (add/remove/lookup by value and by raw text), 20% memo (1-3 nodes "
@@ -38,7 +59,17 @@ RULE = ("cases = corpus (witnesses of F-C16a/F-C16b and corner cases) + a system
         "key) + a nested-array memo family (a third of the memo histories, and systematically every ordered pair of four fixed groups: "
         "fact sets that differ only in the GROUPING of a nested array with the same leaves, [[1],2] / [[1,2]], [[],[]] / [[[]]], random "
         "regroupings of one pre-order token sequence, under nodes whose verdict depends on the grouping: UlMultiField count with every "
-        "operator / empty / not_empty / first / last / collect, alpha contains, == / != / contains against another field). Each case runs on the real components "
+        "operator / empty / not_empty / first / last / collect, alpha contains, == / != / contains against another field). + a key-text family V (every string of a 54-string list that "
+        "exercises each branch of <str as Debug> — fixed escapes, ' kept, controls, DEL, printable non-ASCII, grapheme extenders, format / "
+        "private-use / unassigned / separator code points, astral characters, text that spells the renderer's own delimiters — alone and inside an "
+        "array; two elements vs. one element spelling the separator or a closing+opening quote; N/6 random value lists nested 0..3 deep with near "
+        "copies: wrapped, or the Debug text of a value as a string) and a CompactAlphaMemory family K (add/remove/contains over fact sets "
+        "that print alike, one per pool pair + N/10 random) and a NodeSharingRegistry family N (register / unregister_rule / get: every history of length <= 3 over "
+        "two look-alike patterns x two rules + N/15 random ones over 11 patterns that coincide when concatenated). Every A/B/M/K/V observation carries the real format!(\"{:?}\", v) of every value of "
+        "the case (kt=), V the real alpha index key read off the public Debug of a one-fact indexed memory (ik=), M the real Debug text of every "
+        "node (nk=), A the IndexStats counters (st=); the model renders the same texts (C16.debugKey / alphaKey / nodeKeyText) and they are "
+        "diffed; the oracle checks on the REAL texts that two values print alike iff they are the same value and that two values share an "
+        "index key iff they are ==. Each case runs on the real components "
         "in-process and on the Lean model; observations are diffed; the Spec oracle compares the implementation's answers with the "
         "harness' own plain computation (== scan / live list / evaluate_typed / rule scan) and with the plain computation of the Lean "
         "Spec from the case alone. Non-trivial = the shortcut was really taken and mattered: a filter answered non-empty through an "
@@ -47,10 +78,14 @@ TRUSTED = [
     "Lean 4.33 kernel; axioms of every property theorem within {propext, Classical.choice, Quot.sound} (audited each run)",
     "hand-written models RreModel/C16/Model.lean tied to src/rete/alpha_memory_index.rs, src/rete/optimization.rs (BetaMemoryIndex), "
     "src/rete/memoization.rs, src/backward/conclusion_index.rs, src/backward/backward_engine.rs by the correspondence check only (differential testing)",
-    "harness/src/bin/c16.rs, Driver/C16.lean parsing/printing glue (incl. the Debug renderer used for beta keys), check.py diff",
+    "harness/src/bin/c16.rs, Driver/C16.lean parsing/printing glue, check.py diff",
     "f64: FloatLaws (a NaN is == to nothing; on non-NaN values `if f == 0.0 {0.0} else {f}` identifies exactly the ==-equal bit patterns) — IEEE 754, not proved",
-    "derived Debug of FactValue / ReteUlNode is an injective rendering (variant names, quoted+escaped strings, shortest round-trip float text): "
-    "the model uses a type-tagged token serialisation in its place, whose injectivity is proved (enc_prefix_free)",
+    "f64 Debug text: FmtLaws (no `)` in the text; two non-NaN floats with the same text are the same float; normalising keeps a non-NaN "
+    "float non-NaN) — the text itself is not modelled (it travels with the case as Rust printed it); the contract is checked on the floats "
+    "of every case (oracle clause float-contract). The rest of the Debug text of FactValue / ReteUlNode (variant names, str escaping, "
+    "integers, separators, nesting) is MODELLED (Model2.lean) and its injectivity is PROVED (debugKey_prefix_free, nodeKey_injective)",
+    "Unicode table behind <str as Debug> (is_printable / Grapheme_Extend): a parameter of the model (every theorem holds for every table); the "
+    "driver's table is exact for ASCII and lists the printable non-ASCII code points the generator draws — compared with Rust on every case",
     "std DefaultHasher (SipHash-1-3) is treated as collision-free on the sequence of typed writes (the model key is that pre-image)",
     "HashMap/HashSet behave as finite maps/sets",
 ]
@@ -58,12 +93,13 @@ ASSUMPTIONS = [
     "TypedFacts is represented by its association list with fields in sorted order (the order compute_facts_hash sorts into)",
     "memo: the evaluation closure is a pure function of (node, facts) — ReteUlNode::evaluate_typed in the harness; the correspondence drives the ==/!=/contains alpha tests (literal or other field), the array-only UlMultiField operations (count/empty/not_empty/first/last/collect) and And/Or/Not, with simple field names",
     "conclusion index: goal patterns and field names are ASCII (byte and char offsets coincide); rule set semantics = latest add per name, remove deletes",
-    "beta: strings in join values are printable ASCII (Debug escapes only \\\" and \\\\ there)",
+    "memo node key: the literal value a model node carries is what the literal parser yields for its text (Node.WF; shown necessary: memo_dbg_needs_wf)",
+    "CompactAlphaMemory: identity of fact sets = same sorted fields, same values up to the text of floats (all NaN payloads are one value, 0.0 and -0.0 are two)",
 ]
 
 
 def _comp(case):
-    return {"A": "alpha", "B": "beta", "M": "memo", "C": "concl", "E": "engine"}.get(case[:1], "?")
+    return {"A": "alpha", "B": "beta", "M": "memo", "C": "concl", "E": "engine", "K": "compact", "V": "values", "N": "registry"}.get(case[:1], "?")
 
 
 def classify(case, impl, model, oracle, kind):
@@ -86,8 +122,14 @@ LEVEL_TEXT = ("Lean 4 theorems (kernel-checked, unbounded: every history, every 
               "not removed under it since; (3) MemoizedEvaluator::evaluate = direct evaluation for every evaluation function whenever the "
               "key determines (node, facts) — and the fixed type-tagged pre-image is proved injective; (4) ConclusionIndex::find_candidates "
               "contains every enabled current rule with a Set on the goal's field after any add/remove/re-add history. The unfixed keys are "
-              "proved to violate (1) and (3) (counterexample theorems). Tied to the Rust sources by a correspondence check (systematic value "
+              "proved to violate (1) and (3) (counterexample theorems). Part 2: the key TEXT the code hashes/compares — format!(\"{:?}\") of FactValue "
+              "(str escaping per char::escape_debug_ext over an arbitrary Unicode table, integers, `, `-separated arrays of any depth, floats through "
+              "an abstract formatter) and of ReteUlNode — is modelled character by character and proved to be a prefix code (debugKey_prefix_free, "
+              "nodeKey_injective), so (1), (2), (3) are re-derived for the keys the code computes (alpha_filter_index_eq_linear_dbg, "
+              "beta_lookup_value_exact, memo_eq_direct_dbg) with the former injectivity assumption replaced by the float formatter contract FmtLaws; "
+              "plus CompactAlphaMemory (compact_eq_counting), NodeSharingRegistry (sharing_eq_live) and the IndexStats counters (alpha_stats_exact). Tied to the Rust sources by a correspondence check (systematic value "
               "pairs + random histories; model vs implementation observations) and by evaluating the Spec predicates on the implementation's observations.")
 LEVEL_NOTE = ("Trusted: Lean kernel + {propext, Classical.choice, Quot.sound}; hand-written models tied to the code by differential testing only; "
-              "IEEE facts about f64 (FloatLaws); injectivity of derived Debug; SipHash collision-freeness; harness/driver glue.")
+              "IEEE facts about f64 (FloatLaws); the f64 Debug formatter contract (FmtLaws: no `)`, injective on non-NaN floats) — the rest of the "
+              "derived Debug text is modelled and its injectivity proved; SipHash collision-freeness; harness/driver glue.")
 DESIGN_REF = "§6 C16"
